@@ -28,7 +28,7 @@ ASSUMPTIONS = ['docstrings of sismic.model.Statechart are the specification of e
                'the code there; only the listed soundness rules are judged',
                'states added by the workload carry no dangling initial/memory of their own']
 OPS = ['add_state', 'remove_state', 'rename_state', 'move_state', 'add_transition', 'remove_transition', 'rotate_transition']
-REQUIRED_COUNTERS = ['held_transition_object_reused', 'removed_object_added_again', 'history_state_as_initial', 'removed_name_reused', 'ops_ok', 'ops_rejected', 'views_compared', 'atomicity_checks', 'rejected_partially_valid'] + \
+REQUIRED_COUNTERS = ['look_alike_transitions_differing_by_contract', 'held_transition_object_reused', 'removed_object_added_again', 'history_state_as_initial', 'removed_name_reused', 'ops_ok', 'ops_rejected', 'views_compared', 'atomicity_checks', 'rejected_partially_valid'] + \
     ['ok_' + o for o in OPS] + ['rejected_' + o for o in OPS]
 KIND = {BasicState: 'basic', CompoundState: 'compound', OrthogonalState: 'orthogonal', FinalState: 'final',
         ShallowHistoryState: 'shallow', DeepHistoryState: 'deep'}
@@ -397,6 +397,19 @@ def run_case(acc, rnd, tier, case):
                 call = ('add_transition', a, b, ev, pr)
                 partially_valid = (a in names) != (b is None or b in names)
                 newt = Transition(a, b, event=ev, priority=pr)
+                if sc.transitions and rnd.random() < 0.3:
+                    # a look-alike of a registered transition: same arrow, guard and action, but another contract.
+                    # It is a different transition (equality covers the contract).
+                    o = rnd.choice(sc.transitions)
+                    a, b, ev, pr = o.source, o.target, o.event, o.priority
+                    call = ('add_transition', a, b, ev, pr)
+                    partially_valid = False
+                    newt = Transition(a, b, event=ev, guard=o.guard, action=o.action, priority=pr)
+                    newt.preconditions.extend(o.preconditions)
+                    newt.postconditions.extend(o.postconditions)
+                    newt.invariants.extend(o.invariants)
+                    getattr(newt, rnd.choice(('preconditions', 'postconditions', 'invariants'))).append('1 == %d' % rnd.randint(1, 3))
+                    acc.count('look_alike_transitions_differing_by_contract')
                 held.append(newt)
                 keepalive.append(newt)
                 mm = lambda: m.add_transition(a, b, ev, pr, oid=id(newt), sig=sig(newt))            # noqa: E731
@@ -413,6 +426,8 @@ def run_case(acc, rnd, tier, case):
                         t.preconditions, t.postconditions, t.invariants = list(t.preconditions), list(t.postconditions), list(t.invariants)
                         o = next(x for x in ts if x == t)
                         t.preconditions, t.postconditions, t.invariants = list(o.preconditions), list(o.postconditions), list(o.invariants)
+                        if rnd.random() < 0.3:
+                            t.invariants.append('2 == 2')        # ... and a copy with another contract designates nothing
                 else:
                     t = Transition(pick(), pick(), event='never')
                 keepalive.append(t)
